@@ -245,7 +245,7 @@ def sm_job(case, tier, nmax, timeout=900, mem=16):
         bounds='array length 0..%d, failure at every constructor call index or none, joint additional size 0..64, second array 0..16 bytes' % nmax)
 sm_job(1, 'quick', 4); sm_job(2, 'quick', 1); sm_job(4, 'quick', 2); sm_job(6, 'quick', 2); sm_job(7, 'quick', 2)
 sm_job(7, 'thorough', 3, 3000, 16)
-sm_job(1, 'thorough', 8, 3000, 16); sm_job(4, 'thorough', 3, 3000, 16); sm_job(5, 'thorough', 2, 3600, 16)
+sm_job(1, 'thorough', 8, 3000, 16); sm_job(4, 'thorough', 3, 3000, 16); sm_job(5, 'thorough', 2, 3600, 24)
 
 # ---------------------------------------------------------------- temporary allocator (mode 2)
 TEMP_HEAP = 0x80 + 4 * 96
